@@ -163,7 +163,7 @@ def run(rep):
     rep.analysed["callgraph_nodes"] = len(G.nodes)
     rep.analysed["callgraph_edges"] = sum(len(v) for v in G.edges.values())
     guarded_edges = sum(1 for es in G.edges.values() for e in es if e[1])
-    rep.floor("C01-R3", "depth-guarded call edges", guarded_edges, 60)
+    rep.floor("C01-R3", "depth-guarded call edges", guarded_edges, 30)
     sccs = G.sccs(lambda a, b, g: not g)
     rep.analysed["unguarded_sccs"] = len(sccs)
     for comp in sccs:
